@@ -48,7 +48,7 @@ Abs(p) ==
 SymFacts(p, keep) == {s \in Range(p.syms) : s.n \in keep}
 
 CaseCfg(c) ==
-  [fmt |-> c.fmt, extra |-> Range(c.extra),
+  [fmt |-> c.fmt, extra |-> Range(c.extra), ret |-> c.ret,
    syms |-> [i \in DOMAIN c.syms |-> [n |-> c.syms[i].n, f |-> Range(c.syms[i].f), ver |-> c.syms[i].ver]]]
 
 \* conformance of the rendered module with the abstract module of the case
@@ -66,7 +66,7 @@ Ctx(t) ==
       reqs == t.case.reqs
       del == D!Del(reqs)
       conf == /\ t.exc0 = ""
-              /\ Sig(M) = Sig(D!Mod(CaseCfg(t.case)))
+              /\ Sig(M) = Sig(D!ModR(CaseCfg(t.case)))
               /\ t.pre.ser.ok /\ t.pre.ser.dang = 0
               /\ del \subseteq M.syms
       out == IF conf THEN D!Outcome(M, reqs) ELSE "?"
